@@ -77,6 +77,19 @@ func init() {
 					{Name: "a2", Ops: []Op{{Op: "sub", H: "g", Tags: raw2}, {Op: "inc", H: "g", M: "c", V: 1}, {Op: "close", H: "g"}, {Op: "sub", H: "g", Tags: raw}, {Op: "inc", H: "g", M: "c", V: 2}}},
 					{Name: "p1", Ops: []Op{{Op: "pass"}}},
 				}}})
+			// "closing a scope never affects any other scope": a SubScope child of a tagged scope is used, closed and
+			// retired (by a pass or by being asked for again); its parent, a sibling and a scope derived later keep
+			// delivering under their own tags
+			kv := map[string]string{"k": "v"}
+			out = append(out, scenarioSet{mode: "dfs", maxExec: 2500, sc: &Scenario{
+				Name: "c07-sibling-" + rep, Reporter: rep, Points: []string{"op_sub", "op_inc", "op_close", "op_pass"},
+				Threads: []ThreadSpec{
+					{Name: "a1", Ops: []Op{{Op: "sub", H: "t", Tags: kv}, {Op: "sub", H: "c", P: "t", Name: "x"}, {Op: "sub", H: "d", P: "t", Name: "y"},
+						{Op: "inc", H: "c", M: "m", V: 1}, {Op: "close", H: "c"}, {Op: "sub", H: "c2", P: "t", Name: "x"},
+						{Op: "inc", H: "t", M: "m", V: 2}, {Op: "inc", H: "d", M: "m", V: 3}, {Op: "inc", H: "c2", M: "m", V: 4},
+						{Op: "sub", H: "e", P: "t", Name: "z"}, {Op: "inc", H: "e", M: "m", V: 5}}},
+					{Name: "p1", Ops: []Op{{Op: "pass"}, {Op: "pass"}}},
+				}}})
 		}
 		return out
 	}
